@@ -17,7 +17,7 @@ R = __import__("sys").modules["dask.array.rechunk"]
 PROPERTY = "C23"
 LEVEL = "other"
 BUDGET = {"quick": 150, "thorough": 1500}
-PATH_TIMEOUT_S = 30      # the planners are instant; a path that takes this long is a hang
+PATH_TIMEOUT_S = 60      # the planners are instant; a path that takes this long is a hang
 EXPLANATION = (
     "Bounded symbolic execution of the chunk arithmetic kernels. normalize_chunks / blockdims_from_blockshape / "
     "_convert_int_chunk_to_tuple with symbolic shape dims and chunk sizes for every chunk-spec kind (int, per-axis ints, explicit "
